@@ -428,6 +428,8 @@ class Tracer:
                     return name in kwn and not (isinstance(kwn[name], ast.Constant) and kwn[name].value is None)
                 act = ('CheckX', given('n_feats'), given('edge_knots') and given('dtypes') and given('features'))
             else:
+                if 'force_2d' in kwn and isinstance(kwn['force_2d'], ast.Constant) and kwn['force_2d'].value is False:
+                    kwn = {k: v for k, v in kwn.items() if k != 'force_2d'}      # the default, spelled out
                 if set(kwn) - {'verbose', 'name', 'ndim'} or len(pos) != 1:
                     raise Unsupported('check_array call shape: %s' % short(node))
                 act = ('CheckArray',)
